@@ -1,4 +1,5 @@
 import DarkluaModel.Shared.Visitor
+import DarkluaModel.C07.Basic
 /-!
 # Unfolding lemmas for the visitor, one per node kind, in projection form
 
@@ -8,10 +9,6 @@ constructor the hooks return, what the visitor does next — proved once by unfo
 -/
 namespace DarkluaModel.Visitor
 variable {σ : Type} (P : Processor σ) (sc : Bool) (n : Nat)
-
-def isCallStmt : Stmt → Bool
-  | .callStmt _ => true
-  | _ => false
 
 /-- the common preamble: destructure `P` so that hook applications are plain function applications -/
 macro "open_processor" P:ident : tactic =>
